@@ -1,6 +1,7 @@
 package main
 
 import (
+	"math"
 	"encoding/json"
 	"fmt"
 	"math/rand"
@@ -78,11 +79,13 @@ func c24Model(it c24Item) (flags map[string]any, additional []string, ok bool) {
 			}
 			switch typ {
 			case "int":
-				n, err := strconv.Atoi(v)
-				if err != nil {
+				// any numeric spelling of a whole number is that integer (`1e3`, `2.0`, `+7`);
+				// fractions are not generated: the statement does not say whether they round or fail
+				f, err := strconv.ParseFloat(v, 64)
+				if err != nil || f != math.Trunc(f) || math.Abs(f) > 1<<53 {
 					return nil, nil, false
 				}
-				flags[target] = float64(n)
+				flags[target] = f
 			case "num":
 				f, err := strconv.ParseFloat(v, 64)
 				if err != nil {
@@ -140,6 +143,9 @@ func c24Gen(r *rand.Rand) c24Item {
 		case "int":
 			if bad {
 				return []string{"abc", "1x", "one"}[r.Intn(3)]
+			}
+			if r.Intn(4) == 0 {
+				return []string{"1e3", "2.0", "1E2", "10.", "-4.0", "+7", "0e0", "-0", "12e-1e"[:3], "007"}[r.Intn(10)]
 			}
 			return strconv.Itoa(r.Intn(200) - 100)
 		case "num":
